@@ -383,6 +383,24 @@ func c12Run(b core.Batch, r *core.Recorder) {
 	}
 }
 
+// c12quiesce waits until the cleanup-run counter and the global gauges have been unchanged for 10 ms (bounded).
+func c12quiesce() {
+	type snap struct{ runs, n, b int64 }
+	read := func() snap {
+		return snap{metrics.Global.Cache.CleanupRuns.Get(), metrics.Global.Cache.CacheEntries.Get(), metrics.Global.Cache.BytesCached.Get()}
+	}
+	last, stableSince := read(), time.Now()
+	deadline := time.Now().Add(2 * time.Second)
+	for time.Now().Before(deadline) {
+		time.Sleep(time.Millisecond)
+		if cur := read(); cur != last {
+			last, stableSince = cur, time.Now()
+		} else if time.Since(stableSince) > 10*time.Millisecond {
+			return
+		}
+	}
+}
+
 // c12concurrent: W workers hammer a small key universe; after the join (quiescence) the
 // invariant must hold.
 func c12concurrent(b core.Batch, r *core.Recorder, e c12env, keys int) {
@@ -418,8 +436,10 @@ func c12concurrent(b core.Batch, r *core.Recorder, e c12env, keys int) {
 			}()
 		}
 		wg.Wait()
-		c.Destroy() // stop the janitor: quiescence
-		time.Sleep(5 * time.Millisecond)
+		c.Destroy() // stop the janitor
+		// quiescence: a cleanup cycle that was in progress when the janitor was told to stop still finishes (and
+		// moves the process-global gauges); wait until nothing moves any more
+		c12quiesce()
 		r.Eval(1)
 		r.Count("concurrent_ops", int64(workers*opsPer))
 		o1 := c12observe(c, e, keys)
